@@ -64,7 +64,10 @@ Verdict(r) ==
     IN IF \E o \in outs : Mismatch(o, r, post) = "ok" THEN inv
        ELSE LET o == IF \E x \in outs : x.res = r.res THEN CHOOSE x \in outs : x.res = r.res
                      ELSE CHOOSE x \in outs : TRUE
-            IN <<"C05:" \o Mismatch(o, r, post)>> \o inv
+            \* an add-type call whose outcome is not admitted also counts against C04 (adding must
+            \* create exactly the announced ids and leave everything else alone)
+            IN <<"C05:" \o Mismatch(o, r, post)>>
+               \o (IF r.op.name \in SCAddOps THEN <<"C04:AddMismatch." \o Mismatch(o, r, post)>> ELSE <<>>) \o inv
 
 Init == i = 0
 Next == i < Len(Recs) /\ i' = i + 1
